@@ -167,7 +167,7 @@ func (f *frame) step(in ssa.Instruction, st *State) bool {
 		case *types.Slice:
 			f.safety("bounds", st, fmt.Sprintf("(and (<= 0 %s) (< %s (s-len %s)))", idx.T, idx.T, base.T), x.Pos(), "index out of range")
 			s := sortOf(u.Elem())
-			pos := fmt.Sprintf("(+ (s-off %s) %s)", base.T, idx.T)
+			pos := fmt.Sprintf("(slot (s-off %s) %s)", base.T, idx.T)
 			f.regs[x] = Val{T: fmt.Sprintf("(eref (s-arr %s) %s)", base.T, pos), Ty: x.Type(),
 				Loc: &Loc{Arr: elemArrName(s), Sort: s, Idx: "(s-arr " + base.T + ")", Pos: pos, Ty: u.Elem()}}
 		case *types.Pointer:
@@ -678,10 +678,7 @@ func (f *frame) convert(x *ssa.Convert, st *State) bool {
 		}
 		f.regs[x] = Val{T: v.T, Ty: x.Type()}
 	case from == "Int" && to == "Str":
-		g.declareFun("runeStr", []string{"Int"}, "Str")
-		g.axiomOnce("runeStr", "(forall ((r Int)) (! (=> (and (<= 0 r) (< r 128)) (and (= (slen (runeStr r)) 1) (= (sat (runeStr r) 0) r))) :pattern ((runeStr r))))")
-		g.axiomOnce("runeStr2", "(forall ((r Int)) (! (and (<= 1 (slen (runeStr r))) (<= (slen (runeStr r)) 4)) :pattern ((runeStr r))))")
-		g.classClosure()
+		g.runeStrDecl()
 		f.setReg(x, "(runeStr "+v.T+")")
 	case from == "Str" && to == "Slice":
 		g.declareFun("strBytes", []string{"Str"}, "Int")
